@@ -278,3 +278,27 @@ Proof.
   rewrite F1, F2, F3, F4, F5, F6, F7, F8, F9, F10, F11, F12, F13, F14, F15, F16, F17, F18, F19, F20, F21.
   rewrite Tm, Tb, Ta, Tbe, Tre. reflexivity.
 Qed.
+
+(* Bit 5 of the ID string type/length byte is reserved (IPMI v2.0 43.1, byte 48): a record in which a BMC sets it decodes
+   to the same value as the record with the bit clear - the length is bits 4:0, the type bits 7:6. *)
+Lemma typelen_reserved_bit (d : N) : d < 256 -> N.testbit d 5 = false ->
+  N.shiftr (d + 32) 6 = N.shiftr d 6 /\ N.land (d + 32) 0x1f = N.land d 0x1f.
+Proof.
+  intros H T.
+  assert (S : forallb (fun d => implb (negb (N.testbit d 5)) ((N.shiftr (d + 32) 6 =? N.shiftr d 6) && (N.land (d + 32) 0x1f =? N.land d 0x1f)))
+                      (map N.of_nat (seq 0 256)) = true) by (vm_compute; reflexivity).
+  rewrite forallb_forall in S. specialize (S d).
+  assert (I : In d (map N.of_nat (seq 0 256))).
+  { apply in_map_iff. exists (N.to_nat d). split; [lia|]. apply in_seq. lia. }
+  specialize (S I). rewrite T in S. cbn [negb implb] in S.
+  apply andb_true_iff in S. destruct S as [A B]. apply N.eqb_eq in A, B. auto.
+Qed.
+
+Theorem fsr_reserved_bit_ignored old b0 b1 b2 b3 b4 b5 b6 b7 b8 b9 b10 b11 b12 b13 b14 b15 b16 b17 b18 b19 b20 b21 b22 b23 b24 b25 b26 b27 b28 b29 b30 b31 b32 b33 b34 b35 b36 b37 b38 b39 b40 b41 d42 rest :
+  d42 < 256 -> N.testbit d42 5 = false ->
+  decode_fsr old (b0 :: b1 :: b2 :: b3 :: b4 :: b5 :: b6 :: b7 :: b8 :: b9 :: b10 :: b11 :: b12 :: b13 :: b14 :: b15 :: b16 :: b17 :: b18 :: b19 :: b20 :: b21 :: b22 :: b23 :: b24 :: b25 :: b26 :: b27 :: b28 :: b29 :: b30 :: b31 :: b32 :: b33 :: b34 :: b35 :: b36 :: b37 :: b38 :: b39 :: b40 :: b41 :: (d42 + 32) :: rest) =
+  decode_fsr old (b0 :: b1 :: b2 :: b3 :: b4 :: b5 :: b6 :: b7 :: b8 :: b9 :: b10 :: b11 :: b12 :: b13 :: b14 :: b15 :: b16 :: b17 :: b18 :: b19 :: b20 :: b21 :: b22 :: b23 :: b24 :: b25 :: b26 :: b27 :: b28 :: b29 :: b30 :: b31 :: b32 :: b33 :: b34 :: b35 :: b36 :: b37 :: b38 :: b39 :: b40 :: b41 :: d42 :: rest).
+Proof.
+  intros H T. destruct (typelen_reserved_bit d42 H T) as [A B].
+  unfold decode_fsr, guard. cbn [length Nat.ltb Nat.leb get nth_error bind]. rewrite A, B. reflexivity.
+Qed.
